@@ -194,6 +194,16 @@ func runC05(c *core.Ctx) {
 			if (i+ci)%2 == 0 {
 				global = append(global, depthArgs...)
 			}
+			if (i+ci)%9 == 4 {
+				// period bounds typed in a layout other than the one in effect (pasted from a spreadsheet, day and month
+				// in either order): accepted or refused, read one way or the other - the same way every time
+				other := []string{"03/04/2021", "2021-03-05", "04.03.2021", "05/06/2021", "3/4/21", "2021.03.04", "01/02/03", "12-11-2021"}
+				global = append(global, "-b", other[r.Intn(len(other))])
+				if r.Intn(2) == 0 {
+					global = append(global, "-e", other[r.Intn(len(other))])
+				}
+				c.Count("cases_with_bounds_in_another_layout", 1)
+			}
 			args := append(global, cmd...)
 			sig := strings.Join(cmd[:min(2, len(cmd))], " ")
 			if cmd[0] == "summary" || cmd[0] == "lint" {
@@ -213,7 +223,7 @@ func runC05(c *core.Ctx) {
 			}
 			outcomes := map[string]int{}
 			key := func(r run.Result) string {
-				return fmt.Sprintf("exit=%d\nerr=%s\n%s", btoi(r.Exit != 0), r.ErrText(), r.Out)
+				return fmt.Sprintf("exit=%d\nerr=%s\n%s", btoi(r.Exit != 0), strings.TrimSpace(r.ErrText()), r.Out)
 			}
 			crashed := false
 			for _, v := range variants {
